@@ -60,9 +60,13 @@ func (h *TwoPartyHandler) Listen() <-chan *Message {
 }
 
 func (h *TwoPartyHandler) Stop() {
+	h.mtx.Lock()
+	defer h.mtx.Unlock()
+	// nothing to do once the protocol has finished or aborted: the channel is already closed
 	if h.err != nil || h.result != nil {
-		h.abort(errors.New("aborted by user"))
+		return
 	}
+	h.abort(errors.New("aborted by user"))
 }
 
 func (h *TwoPartyHandler) String() string {
@@ -178,6 +182,13 @@ func (h *TwoPartyHandler) advance() {
 }
 
 func (h *TwoPartyHandler) CanAccept(msg *Message) bool {
+	h.mtx.Lock()
+	defer h.mtx.Unlock()
+	return h.canAccept(msg)
+}
+
+// canAccept is CanAccept without locking, for callers that already hold the mutex.
+func (h *TwoPartyHandler) canAccept(msg *Message) bool {
 	r := h.round
 	if msg == nil {
 		return false
@@ -207,7 +218,7 @@ func (h *TwoPartyHandler) Accept(msg *Message) {
 	h.mtx.Lock()
 	defer h.mtx.Unlock()
 
-	if !h.CanAccept(msg) || h.err != nil || h.result != nil {
+	if !h.canAccept(msg) || h.err != nil || h.result != nil {
 		return
 	}
 
